@@ -166,7 +166,8 @@ def part_framing(ctx, rnd):
     traces = vlib.split_traces(events)
     nontrivial = set()
     whole_rejected = 0
-    first_wr = None
+    writer_untruncated = 0
+    first_wr = first_wu = None
     for t in traces:
         h = t[0]
         for e in t[1:]:
@@ -182,9 +183,17 @@ def part_framing(ctx, rnd):
                     first_wr = first_wr or t
                 if e["failed"]:
                     nontrivial.add((h["rdr"], h["nvols"], h["failvol"], h["failat"], h["dir"], h["path"]))
+                    if e["status"] == 200 and e["term"]:
+                        writer_untruncated += 1
+                        first_wu = first_wu or t
     if whole_rejected:
         ctx.drift.append("framing: %d complete index responses were not accepted, first: %s"
                          % (whole_rejected, json.dumps(first_wr)[:600]))
+    if writer_untruncated:
+        # a writer obligation, not in the statement (which is about readers): drift, never a violation
+        ctx.drift.append("framing: keepstore terminated %d index responses with the empty line although a volume "
+                         "failed while being indexed, first: %s" % (writer_untruncated, json.dumps(first_wu)[:500]))
+    ctx.extra["framing_writer_untruncated"] = writer_untruncated
     for ev in per_reader:
         judge_batched(ctx, "IndexFramingTrace", "Judge_IndexFraming.cfg", ev, by_id, batch=20000, max_rejects=3)
     ctx.evaluations += len(traces)
